@@ -1,339 +1,401 @@
-"""C06 - every HTTP header serialiser is inverted by its parser (quoting layer and framing constants)."""
+"""C06 - every HTTP header serialiser is inverted by its parser (quoting layer and framing constants).
+
+The rules do not look at how a serialiser or parser is spelled.  Each function of interest is turned into a symbolic
+summary (`_c06_helpers`: per path the condition and the returned term, private helpers inlined, loops abstracted to
+"collection of items, each with its own condition").  Rules then either inspect the terms (which separator constants
+does the written template contain, which call wraps a value, which offset is applied to the exclusive stop) or evaluate
+the summary of a small pure string function - or of the per-element part of a parser loop - on an exhaustive set of
+short strings over the characters that matter (bounded check of the round trip through the two summaries).
+"""
 
 from __future__ import annotations
 
 import ast
 import re
+import typing as t
 
 from .. import astq
+from ..cfg import cfg_of
 from ..fold import Folder, RegexConst, Unfoldable, classes_in, single_class
-from ..loader import AnalysisError, FuncInfo, dotted, norm, walk_no_nested
+from ..loader import AnalysisError, FuncInfo, dotted, norm
 from ..report import Ctx
+from . import _c06_helpers as H
+from ._c06_helpers import NONE, C, Conc, Raised, Summaries, Summary, Term, coll_items, cv, is_c, is_cstr, show, show_conds, walk, walk_deep
 from ._shared import optional_int_rule
 
 LEVEL_TEXT = (
-    "Static decision of the quoting layer and framing constants behind C06: (R6.1) the alphabet that quote_header_value "
-    "leaves unquoted is contained in every parser's token class and disjoint from all separators; (R6.2) the escape "
-    "chain (backslash first, then quote) and every unquoting chain carry the inverse pairs; (R6.3) the empty value is "
-    "emitted as a quoted empty string; (R6.4) the inclusive/exclusive offsets of Range / Content-Range writers and "
-    "parsers cancel; (R6.5) separators written by CSP / ETag / HeaderSet / Range serialisers are the ones their parsers "
-    "split on, and the ETag regex reads both written forms; (R6.6) each typed header's to_header and parser reach the "
-    "paired shared dumper / parser. It decides these necessary structural conditions, not the round-trip law over all "
-    "values (dates, base64 credentials, cache-control typing are delegated to library code and not decided)."
+    "Static decision of the quoting layer and framing constants behind C06, on symbolic summaries of the functions "
+    "(path condition -> returned term; private helpers inlined, loops abstracted), independent of how they are spelled: "
+    "(R6.1) the alphabet that quote_header_value leaves unquoted is contained in RFC tchar and in every option parser's "
+    "token class and disjoint from all separators, and the bare return is taken only under that test; (R6.2) on every "
+    "string up to length 4 over {backslash, quote, letter, ';', ',', space, and every character a rewriting constant "
+    "mentions} the quoted form is an RFC 9110 quoted-string that decodes to the value, and unquote_header_value, the "
+    "value step of parse_options_header and the item steps of parse_list_header / parse_dict_header give the value back "
+    "(no second unescaping after urllib's splitter); (R6.3) the empty value is emitted as a quoted empty string; (R6.4) "
+    "Range / Content-Range writers print the exclusive stop minus 1 wherever they print it and the parsers store the "
+    "parsed number plus 1 in the stop slot of the object they build; (R6.5) separators written by CSP / ETag / HeaderSet "
+    "/ Range / dump_header / dump_options_header are the ones their parsers cut on (CSP and ETag by evaluating the "
+    "parser's element step / regex on text composed from the writer's constants), key=value items quote the value "
+    "unless the key ends in '*', parse_etags routes by the W/ group and compares only the raw group with '*', "
+    "unquote_etag inverts quote_etag on a bounded sample; (R6.6) the value returned by each typed header's to_header / "
+    "parser contains the call of the paired shared dumper / parser, Basic credentials are b64(user ':' pass) both ways, "
+    "and the auth scheme is stored lower-cased. It decides these necessary conditions, not the round-trip law over all "
+    "values (dates, base64 credentials, cache-control typing are delegated to library code and not decided; the scanner "
+    "loop of parse_options_header and the stateful validation in parse_range_header are not evaluated)."
 )
-TRUSTED = ["CPython ast and re._parser", "RFC 9110 section 5.6.2 token / 5.6.4 quoted-string tables embedded as constants", "urllib.request.parse_http_list drops the backslash of an escaped character inside quotes"]
+TRUSTED = [
+    "CPython ast and re._parser; semantics of builtin str / bytes / frozenset methods and of `re` applied to constants folded from the source",
+    "RFC 9110 section 5.6.2 token / 5.6.4 quoted-string tables embedded as constants",
+    "urllib.request.parse_http_list keeps the quotes of a quoted item and drops the backslash of an escaped character inside them",
+]
 ASSUMPTIONS = ["keys are tokens free of '*' (as the property states)", "option values do not contain the literal %22"]
 
 RFC_TCHAR = frozenset("!#$%&'*+-.^_`|~0123456789ABCDEFGHIJKLMNOPQRSTUVWXYZabcdefghijklmnopqrstuvwxyz")
 SEPARATORS = frozenset('"\\,;= \t')
+BASE_ALPHABET = "\\\"a;,= "
+CUT_METHODS = ("split", "rsplit", "partition", "rpartition", "find", "rfind", "index", "rindex")
+RX_METHODS = ("match", "fullmatch", "search", "finditer", "findall", "sub", "split")
 
 
-def _replace_chain(expr: ast.AST) -> list[tuple[str, str]] | None:
-    ch = astq.method_chain(expr)
+# ---------------------------------------------------------------------------------------------------------------
+# small term queries
+
+
+def _gfq(t_: Term) -> str | None:
+    return t_[1] if isinstance(t_, tuple) and len(t_) == 2 and t_[0] == "g" else None
+
+
+def _is_call_to(t_: Term, last: str) -> bool:
+    return t_[0] == "call" and (_gfq(t_[1]) or "").rsplit(".", 1)[-1] == last
+
+
+def _arg(call: Term, pos: int, name: str) -> Term | None:
+    for kw in call[3]:
+        if kw[1] == name:
+            return kw[2]
+    return call[2][pos] if pos < len(call[2]) else None
+
+
+def _parts(t_: Term) -> list[Term]:
+    return list(t_[1]) if t_[0] == "cat" else [t_]
+
+
+def _const_parts(t_: Term) -> list[str]:
+    return [cv(p) for p in _parts(t_) if is_cstr(p)]
+
+
+def _replace_consts(terms: t.Iterable[Term]) -> list[tuple[str, str]]:
     out = []
-    for name, c in ch:
-        if name == "replace" and len(c.args) >= 2:
-            a, b = astq.const_str(c.args[0]), astq.const_str(c.args[1])
-            if a is None or b is None:
-                return None
-            out.append((a, b))
+    for x in terms:
+        if x[0] == "meth" and x[1] == "replace" and len(x[3]) >= 2 and is_cstr(x[3][0]) and is_cstr(x[3][1]):
+            out.append((cv(x[3][0]), cv(x[3][1])))
     return out
 
 
-def _all_replace_chains(fn: ast.AST) -> list[tuple[ast.AST, list[tuple[str, str]]]]:
-    """outermost replace chains in a function."""
-    res = []
-    for c in astq.method_calls(fn, "replace"):
-        p = astq.parent(c)
-        if isinstance(p, ast.Attribute) and p.attr == "replace":
-            continue  # inner link
-        ch = _replace_chain(c)
-        if ch:
-            res.append((c, ch))
-    return res
-
-
-def _with_helpers(fi: FuncInfo) -> list[FuncInfo]:
-    """fi plus the module-level private helpers it calls (one level): an extracted helper is read as part of fi."""
-    out = [fi]
-    for c in astq.calls(fi.node):
-        d = dotted(c.func)
-        if d and d.startswith("_") and d in fi.module.functions and fi.module.functions[d] not in out:
-            out.append(fi.module.functions[d])
+def _its(terms: t.Iterable[Term]) -> list[Term]:
+    out: list[Term] = []
+    for x in terms:
+        if x[0] == "it" and x not in out:
+            out.append(x)
     return out
 
 
-def _calls_resolved(ctx: Ctx, fi: FuncInfo, follow: bool = True) -> set[str]:
-    if follow:
-        res: set[str] = set()
-        for g in _with_helpers(fi):
-            res |= _calls_resolved(ctx, g, follow=False)
-        return res
-    return _calls_resolved_one(ctx, fi)
+def _element_term(summ: Summary, what: str, accept: t.Callable[[Term], bool]) -> Term:
+    """the generic loop element ("it", X) of the parser loop whose collection X satisfies ``accept``."""
+    cands = [x for x in _its(summ.terms_deep()) if accept(x[1])]
+    if len(cands) != 1:
+        raise AnalysisError(f"{summ.fi.name}: expected one loop over {what}, found {len(cands)}")
+    return cands[0]
 
 
-def _calls_resolved_one(ctx: Ctx, fi: FuncInfo) -> set[str]:
-    li = fi.module.local_imports(fi.node)
-    out = set()
-    for c in astq.calls(fi.node):
-        d = dotted(c.func)
-        if d:
-            fq = ctx.repo.resolve(fi.module, d, li)
-            if fq:
-                out.add(fq)
-        # map(http.quote_header_value, ...) style references
-        for a in c.args:
-            d2 = dotted(a)
-            if d2 and "." in d2 or (d2 and d2 in fi.module.imports):
-                fq = ctx.repo.resolve(fi.module, d2, li)
-                if fq:
-                    out.add(fq)
+def _item_outcomes(summ: Summary, pred: t.Callable[[Term], bool]) -> list[H.Outcome]:
+    """items of all collections reachable from the returned values, as pseudo-outcomes (loop-relative condition -> item)."""
+    out: list[H.Outcome] = []
+    seen: set[tuple] = set()
+    for o in summ.returns:
+        for x in walk_deep(o.term):
+            items = coll_items(x)
+            if items is None:
+                continue
+            for cs, it_ in sorted(items, key=repr):
+                if pred(it_) and (cs, it_) not in seen:
+                    seen.add((cs, it_))
+                    out.append(H.Outcome("return", cs, it_, None))
     return out
+
+
+def _first_bad(pairs: t.Iterable[tuple[t.Any, t.Any, t.Any]]) -> str:
+    for inp, got, want in pairs:
+        if got != want:
+            return f"e.g. {inp!r} -> {got!r}, expected {want!r}"
+    return "all samples agree"
+
+
+def _apply(conc: Conc, summ: Summary, args: list[t.Any], kwargs: dict[str, t.Any] | None = None) -> t.Any:
+    try:
+        return conc.apply(summ, args, kwargs or {})
+    except Raised as r:
+        return ("<raises>", r.kind)
+
+
+# ---------------------------------------------------------------------------------------------------------------
 
 
 def run(ctx: Ctx) -> None:
     repo = ctx.repo
     folder = Folder(repo)
-    http = repo.module("http")
+    sums = Summaries(repo, folder)
+    conc = Conc(sums)
     for rid, text in {
         "R6.1": "alphabet left bare by quote_header_value is within RFC tchar, within the token class of every option/list parser, and disjoint from separators",
-        "R6.2": "quote chain is [backslash->2 backslashes, quote->backslash quote] in that order; each unquote chain has both inverse pairs",
+        "R6.2": "the quoted form is an RFC quoted-string decoding to the value, and every unquoting step gives the value back (bounded check on summaries)",
         "R6.3": "empty value is emitted as a quoted empty string",
         "R6.4": "Range / Content-Range writers print stop-1 and parsers store value+1 (offsets cancel)",
-        "R6.5": "separator constants written by serialisers equal the ones their parsers split on; _etag_re reads both written ETag forms",
-        "R6.6": "typed header to_header / parser reach the paired shared dumper / parser",
+        "R6.5": "separator constants written by serialisers are the ones their parsers cut on; key=value items quote the value; ETag forms are read back",
+        "R6.6": "typed header to_header / parser return the result of the paired shared dumper / parser; Basic credentials and the scheme normal form agree",
     }.items():
         ctx.rule(rid, text)
 
-    # ---------------- R6.1 / R6.2 / R6.3: quote_header_value ----------
-    q = repo.func("http.quote_header_value")
-    ctx.saw(q)
-    sup = [c for c in astq.method_calls(q.node, "issuperset")]
-    rxsup = [c for c in astq.method_calls(q.node, "fullmatch") + astq.method_calls(q.node, "match") + astq.method_calls(q.node, "search")]
-    if len(sup) == 1 and not rxsup:
-        recv = sup[0].func.value  # type: ignore[attr-defined]
-        tname = dotted(recv)
-        # follow one local alias: token_chars = _token_chars
-        for _, v in astq.assigns_to(q.node, tname or ""):
-            if v is not None and dotted(v):
-                tname = dotted(v)
-        T = folder.name(http, tname or "")
-        if not isinstance(T, (set, frozenset)):
-            raise AnalysisError(f"{tname} does not fold to a set")
-        T = frozenset(T)
-    elif len(rxsup) == 1 and not sup:
-        # regex form of the same test: the bare alphabet is the class of the pattern (must be a full match)
-        sup = rxsup
-        tname = dotted(sup[0].func.value)  # type: ignore[attr-defined]
-        rxv = folder.name(http, tname or "")
-        if not isinstance(rxv, RegexConst):
-            raise AnalysisError(f"{tname} does not fold to a regex")
-        cls_, rep_ = single_class(rxv, 0x3000)
-        T = frozenset(chr(c) for c in cls_)
-        ctx.ob("R6.1", "bare-token regex test is a full match", sup[0].func.attr == "fullmatch", f"{tname}.{sup[0].func.attr}(...)", q, sup[0], "bare test fullmatch")  # type: ignore[attr-defined]
-    else:
-        raise AnalysisError("quote_header_value: expected exactly one bare-token test (.issuperset(...) or <regex>.fullmatch(...))")
-    # the bare return is guarded by the superset test and returns the string unchanged
-    guard_if = astq.enclosing(sup[0], (ast.If,))
-    bare_ok = isinstance(guard_if, ast.If) and any(isinstance(s, ast.Return) and isinstance(s.value, ast.Name) for s in guard_if.body)
-    ctx.ob("R6.1", "bare return only under the token test", bare_ok, f"`if {norm(guard_if.test) if guard_if else '?'}: return <str>`", q, sup[0], "bare return guard")
+    def S(fq: str) -> Summary:
+        f = repo.func(fq)
+        ctx.saw(f)
+        return sums.of(f)
+
+    # ---------------- R6.1 / R6.2 / R6.3: quote_header_value -----------
+    Q = S("http.quote_header_value")
+    q = Q.fi
+    if not Q.params:
+        raise AnalysisError("quote_header_value has no parameter")
+    P = ("p", Q.params[0])
+    subj = {P, ("cat", (P,))}
+    flag = Q.params[1] if len(Q.params) > 1 else None
+    bare = [o for o in Q.returns if o.term in subj]
+    T: frozenset[str] = frozenset()
+    guard_ok = True
+    guard_facts = []
+    for o in bare:
+        tests = [r for a, tr in o.conds for r in [_alphabet_test(a, subj, conc)] if r is not None and r[1] == tr]
+        if not tests:
+            other = [a for a, _ in o.conds if a not in subj and any(x in subj for x in walk(a))]
+            if other:
+                raise AnalysisError(f"quote_header_value: the bare return is guarded by a test that is not understood: {show(other[0])}")
+            guard_ok = False
+            guard_facts.append(f"bare return under `{show_conds(o.conds)}` has no alphabet test")
+            continue
+        for tset, _, rxm in tests:
+            T = T | tset
+            guard_facts.append(f"bare return under `{show_conds(o.conds)}`")
+            if rxm is not None:
+                ctx.ob("R6.1", "bare-token regex test is a full match", rxm == "fullmatch", f"<regex>.{rxm}(...)", q, o.node, "bare test fullmatch")
+    ctx.ob("R6.1", "bare return only under the token test", guard_ok, "; ".join(guard_facts) or "no bare return: every value is quoted", q, bare[0].node if bare else q.node, "bare return guard")
+    anchor = bare[0].node if bare else q.node
     bad = sorted(T - RFC_TCHAR)
-    ctx.ob("R6.1", "bare alphabet within RFC 9110 tchar", not bad, f"|T|={len(T)}; outside tchar: {bad}", q, sup[0], "T subset tchar")
+    ctx.ob("R6.1", "bare alphabet within RFC 9110 tchar", not bad, f"|T|={len(T)}; outside tchar: {bad[:12]}", q, anchor, "T subset tchar")
     inter = sorted(T & SEPARATORS)
-    ctx.ob("R6.1", "bare alphabet disjoint from separators", not inter, f"T & separators = {inter}", q, sup[0], "T disjoint separators")
-    nonascii = [c for c in T if ord(c) > 127]
-    ctx.ob("R6.1", "bare alphabet is ASCII", not nonascii, f"{nonascii}", q, sup[0], "T ascii")
+    ctx.ob("R6.1", "bare alphabet disjoint from separators", not inter, f"T & separators = {inter}", q, anchor, "T disjoint separators")
+    nonascii = sorted(c for c in T if ord(c) > 127)
+    ctx.ob("R6.1", "bare alphabet is ASCII", not nonascii, f"{nonascii[:12]}", q, anchor, "T ascii")
 
     po = repo.func("http.parse_options_header")
     ctx.saw(po)
-    tok_re = key_re = None
-    for c in astq.method_calls(po.node, "match"):
-        d = dotted(c.func.value)  # type: ignore[attr-defined]
-        if not d:
-            continue
-        try:
-            rx = folder.name(http, d)
-        except Unfoldable:
-            continue
-        if not isinstance(rx, RegexConst):
-            continue
-        try:
-            cls, rep = single_class(rx, 256)
-            if rep[0] >= 1 and rep[1] > 1000:
-                tok_re = (d, rx, cls, c)
-                continue
-        except Unfoldable:
-            pass
-        items = list(rx.parsed())
-        if len(items) == 2 and str(items[1][0]) == "LITERAL" and items[1][1] == ord("="):
-            kc = classes_in(rx, 256)
-            if len(kc) == 1:
-                key_re = (d, rx, kc[0], c)
-    if tok_re is None or key_re is None:
-        raise AnalysisError("parse_options_header: token-value / key regex slots not found")
+    tok_re, key_re = _option_regex_slots(ctx, folder, po)
     tcls = {chr(c) for c in tok_re[2]}
-    ctx.ob("R6.1", "option parser token class contains the bare alphabet", T <= tcls, f"{tok_re[0]} class has {len(tcls)} chars; T - class = {sorted(T - tcls)}", po, tok_re[3], "token class superset")
-    ctx.ob("R6.1", "option parser token class stops at separators", not (tcls & set(';"')), f"class & {{; \"}} = {sorted(tcls & set(';\"'))}", po, tok_re[3], "token class stops")
+    ctx.ob("R6.1", "option parser token class contains the bare alphabet", T <= tcls and tok_re[3].func.attr in ("match", "fullmatch"), f"{tok_re[0]}.{tok_re[3].func.attr} class has {len(tcls)} chars; T - class = {sorted(T - tcls)}", tok_re[4], tok_re[3], "token class superset")
+    ctx.ob("R6.1", "option parser token class stops at separators", not (tcls & set(';"')), f"class & {{; \"}} = {sorted(tcls & set(';\"'))}", tok_re[4], tok_re[3], "token class stops")
     kcls = {chr(c) for c in key_re[2]}
-    ctx.ob("R6.1", "option parser key class contains the token alphabet and not '='", T <= kcls and "=" not in kcls, f"{key_re[0]}: T - class = {sorted(T - kcls)}", po, key_re[3], "key class")
-    # the match must be anchored at the start of the rest (match, not search) - by construction of the slot search
-    # quoted alternative: rest[:1] == '"' is tested when the token regex fails
-    has_quoted_alt = any(norm(n) == "rest[:1] == '\"'" for n in ast.walk(po.node) if isinstance(n, ast.Compare))
-    ctx.ob("R6.1", "option parser tries the quoted form when the token form fails", has_quoted_alt, "elif rest[:1] == '\"'", po, po.node, "quoted alternative")
+    ctx.ob("R6.1", "option parser key class contains the token alphabet and not '='", T <= kcls and "=" not in kcls, f"{key_re[0]}: T - class = {sorted(T - kcls)}", key_re[4], key_re[3], "key class")
+    alt_ok, alt_fact = _quoted_alternative(po, tok_re)
+    ctx.ob("R6.1", "option parser tries the quoted form when the token form fails", alt_ok, alt_fact, po, po.node, "quoted alternative")
 
-    # R6.2
-    chains = _all_replace_chains(q.node)
-    want_q = [("\\", "\\\\"), ('"', '\\"')]
-    okq = len(chains) == 1 and chains[0][1] == want_q
-    ctx.ob("R6.2", "quote chain escapes backslash first, then quote", okq, f"chains={[c for _, c in chains]}", q, chains[0][0] if chains else q.node, "quote chain")
-    # result wrapped in quotes
-    rets = astq.returns_of(q.node)
-    wrap = [r for r in rets if isinstance(r.value, ast.JoinedStr) and len(r.value.values) == 3 and astq.const_str(r.value.values[0]) == '"' and astq.const_str(r.value.values[2]) == '"']
-    ctx.ob("R6.2", "escaped value wrapped in double quotes", len(wrap) == 1 and bool(chains) and wrap[0].lineno > chains[0][0].lineno, "return f'\"{value_str}\"' after the chain", q, q.node, "quote wrap")
-    inv = {("\\\\", "\\"), ('\\"', '"')}
-    n_unq = 0
-    for fq in ("http.unquote_header_value", "http.parse_options_header"):
-        f = repo.func(fq)
-        ctx.saw(f)
-        chs = _all_replace_chains(f.node)
-        good = [c for c in chs if inv <= set(c[1])]
-        n_unq += len(good)
-        ctx.ob("R6.2", f"{f.name} unquote chain has both inverse pairs", len(good) >= 1, f"chains={[c for _, c in chs]}", f, good[0][0] if good else f.node, "unquote chain")
-        for node, ch in good:
-            extra = [p for p in ch if p not in inv and p != ("%22", '"')]
-            ctx.ob("R6.2", f"{f.name} unquote chain has no other rewriting", not extra, f"extra pairs {extra}", f, node, "unquote chain extras")
-            # chain root strips the surrounding quotes: x[1:-1]
-            root = node
-            while isinstance(root, ast.Call) and isinstance(root.func, ast.Attribute) and root.func.attr == "replace":
-                root = root.func.value
-            strip_ok = isinstance(root, ast.Subscript) and norm(root.slice) == "1:-1" or isinstance(root, ast.Name) and any(v is not None and isinstance(v, ast.Subscript) and norm(v.slice) == "1:-1" for _, v in astq.assigns_to(f.node, root.id))
-            ctx.ob("R6.2", f"{f.name} strips exactly the surrounding quotes before unescaping", bool(strip_ok), norm(root), f, node, "unquote strip")
-    # list parser: quotes stripped, escapes undone by the stdlib splitter
-    pl = repo.func("http.parse_list_header")
-    ctx.saw(pl)
-    uses_std = "urllib.request.parse_http_list" in _calls_resolved(ctx, pl)
-    strip = any(isinstance(n, ast.Subscript) and norm(n.slice) == "1:-1" for n in ast.walk(pl.node))
-    ctx.ob("R6.2", "parse_list_header splits with parse_http_list and strips quotes", uses_std and strip, f"parse_http_list={uses_std}, [1:-1]={strip}", pl, pl.node, "list parser")
-    pd = repo.func("http.parse_dict_header")
-    ctx.saw(pd)
-    ctx.ob("R6.2", "parse_dict_header builds on parse_list_header and partitions at the first '='", "werkzeug.http.parse_list_header" in _calls_resolved(ctx, pd) and any(astq.const_str(c.args[0]) == "=" for c in astq.method_calls(pd.node, "partition") if c.args), "", pd, pd.node, "dict parser")
+    # R6.2 / R6.3: bounded round trip through the summaries
+    alphabet = set(BASE_ALPHABET)
+    for c_ in _replace_consts(Q.terms_deep()):
+        alphabet |= set(c_[0]) | set(c_[1])
+    U = S("http.unquote_header_value")
+    for a_, b_ in _replace_consts(U.terms_deep()):
+        alphabet |= set(a_) | set(b_)
+    smp = H.samples(alphabet, 4 if len(alphabet) <= 7 else 3)
+    kw_quote = {flag: False} if flag else {}
+    rows = []
+    for s_ in smp:
+        w = _apply(conc, Q, [s_], kw_quote)
+        if not flag and w == s_:
+            continue
+        rows.append((s_, w))
+    wrap_ok = all(isinstance(w, str) and len(w) >= 2 and w[0] == '"' == w[-1] for _, w in rows)
+    dec = [(s_, H.rfc_unquote_full(w) if isinstance(w, str) else w, s_) for s_, w in rows]
+    ctx.ob("R6.2", "escaped value is a quoted-string that decodes to the value (backslash escaped before quote)", all(g == w_ for _, g, w_ in dec), f"{len(rows)} strings over {sorted(alphabet)}: quote_header_value(s{', ' + flag + '=False' if flag else ''}) decoded by the RFC 9110 scanner; {_first_bad(dec)}", q, q.node, "quote chain")
+    ctx.ob("R6.2", "escaped value wrapped in double quotes", wrap_ok, _first_bad((s_, w, "\"...\"") for s_, w in rows if not (isinstance(w, str) and len(w) >= 2 and w[0] == '"' == w[-1])), q, q.node, "quote wrap")
+    dflt = []
+    for s_ in smp:
+        w = _apply(conc, Q, [s_], {})
+        good = (w == s_ and set(s_) <= T) or (isinstance(w, str) and w != s_ and H.rfc_unquote_full(w) == s_)
+        dflt.append((s_, w if not good else "ok", "ok"))
+    ctx.ob("R6.2", "default call returns the value bare only when it is a token, else the quoted-string", all(g == "ok" for _, g, _ in dflt), _first_bad(dflt), q, q.node, "quote default path")
+
+    rt = [(s_, _apply(conc, U, [H.rfc_quote(s_)]), s_) for s_ in [""] + smp]
+    ctx.ob("R6.2", "unquote_header_value unquote chain has both inverse pairs", all(g == w_ for _, g, w_ in rt), f"unquote_header_value(RFC-quoted s) == s on {len(rt)} strings; {_first_bad(rt)}", U.fi, U.fi.node, "unquote chain")
+    toks = H.samples("ab-", 3)
+    keep = [(s_, _apply(conc, U, [s_]), s_) for s_ in toks] + [(f'"{s_}"', _apply(conc, U, [f'"{s_}"']), s_) for s_ in toks]
+    ctx.ob("R6.2", "unquote_header_value strips exactly the surrounding quotes before unescaping", all(g == w_ for _, g, w_ in keep), _first_bad(keep), U.fi, U.fi.node, "unquote strip")
+
+    # option parser: the value step of the second loop
+    PO = S("http.parse_options_header")
+    po_alpha = set(alphabet)
+    for a_, b_ in _replace_consts(PO.terms_deep()):
+        if (a_, b_) != ("%22", '"'):
+            po_alpha |= set(a_) | set(b_)
+    po_smp = H.samples(po_alpha, 3)
+    kvs = _item_outcomes(PO, lambda i: i[0] == "kv")
+    if not kvs:
+        raise AnalysisError("parse_options_header: no option is stored")
+    pair_its = [x for x in _its(walk(tuple((o.term, o.conds) for o in kvs))) if coll_items(x[1]) and all(i[0] == "tuple" and len(i[1]) == 2 for _, i in coll_items(x[1]))]  # type: ignore[union-attr]
+    if len(pair_its) != 1:
+        raise AnalysisError(f"parse_options_header: expected one loop over the scanned (key, value) pairs, found {len(pair_its)}")
+    E = pair_its[0]
+    res = []
+    for s_ in po_smp:
+        res.append((s_, _pick_value(conc, kvs, {E: ("k", H.rfc_quote(s_))}), ("k", s_)))
+    ctx.ob("R6.2", "parse_options_header unquote chain has both inverse pairs", all(g == w_ for _, g, w_ in res), f"option stored for the scanned pair ('k', RFC-quoted s) on {len(res)} strings; {_first_bad(res)}", PO.fi, PO.fi.node, "unquote chain")
+    res = [(s_, _pick_value(conc, kvs, {E: ("k", s_)}), ("k", s_)) for s_ in toks]
+    ctx.ob("R6.2", "parse_options_header strips exactly the surrounding quotes before unescaping", all(g == w_ for _, g, w_ in res), f"option stored for the scanned pair ('k', token); {_first_bad(res)}", PO.fi, PO.fi.node, "unquote strip")
+
+    # list parser: quotes stripped, escapes already undone by the stdlib splitter
+    PL = S("http.parse_list_header")
+    E = _element_term(PL, "urllib.request.parse_http_list(value)", lambda x: x[0] == "call" and _gfq(x[1]) == "urllib.request.parse_http_list" and len(x[2]) == 1 and x[2][0][0] == "p")
+    items = _item_outcomes(PL, lambda i: True)
+    smp3 = [x for x in smp if len(x) <= 3]
+    res = [(f'"{s_}"', _pick_value(conc, items, {E: f'"{s_}"'}), s_) for s_ in [""] + smp3] + [(s_, _pick_value(conc, items, {E: s_}), s_) for s_ in toks]
+    ctx.ob("R6.2", "parse_list_header splits with parse_http_list and strips quotes", all(g == w_ for _, g, w_ in res), f"item kept for an element of parse_http_list (quotes kept, escapes already removed); {_first_bad(res)}", PL.fi, PL.fi.node, "list parser")
+    PD = S("http.parse_dict_header")
+    E = _element_term(PD, "parse_list_header(value)", lambda x: x[0] == "call" and _gfq(x[1]) == "werkzeug.http.parse_list_header" and len(x[2]) == 1 and x[2][0][0] == "p")
+    kvs = _item_outcomes(PD, lambda i: i[0] == "kv")
+    res = [(f'k="{s_}"', _pick_value(conc, kvs, {E: f'k="{s_}"'}), ("k", s_)) for s_ in [""] + smp3]
+    res += [(f"k={s_}", _pick_value(conc, kvs, {E: f"k={s_}"}), ("k", s_)) for s_ in toks] + [("k", _pick_value(conc, kvs, {E: "k"}), ("k", None))]
+    ctx.ob("R6.2", "parse_dict_header builds on parse_list_header and partitions at the first '='", all(g == w_ for _, g, w_ in res), f"entry stored for an item of parse_list_header; {_first_bad(res)}", PD.fi, PD.fi.node, "dict parser")
 
     # R6.3
-    empties = []
-    for n in ast.walk(q.node):
-        if isinstance(n, ast.If) and isinstance(n.test, ast.UnaryOp) and isinstance(n.test.op, ast.Not):
-            for s in n.body:
-                if isinstance(s, ast.Return) and astq.const_str(s.value) == '""':
-                    empties.append(n)
-    ctx.ob("R6.3", "empty value emitted as \"\"", len(empties) == 1 and empties[0].lineno < sup[0].lineno, "if not value_str: return '\"\"' before the token test", q, empties[0] if empties else q.node, "empty value")
+    w = _apply(conc, Q, [""], {})
+    w2 = _apply(conc, Q, [""], kw_quote)
+    ctx.ob("R6.3", "empty value emitted as \"\"", w == '""' == w2, f"quote_header_value('') -> {w!r}", q, q.node, "empty value")
 
     # ---------------- R6.4 offsets --------------------------------------
     n64 = 0
     for wfq, desc in (("datastructures.range.Range.to_header", "Range"), ("datastructures.range.ContentRange.to_header", "Content-Range"), ("datastructures.range.Range.to_content_range_header", "Range->Content-Range")):
-        f = repo.func(wfq)
-        ctx.saw(f)
-        offs = _fstring_offsets(f.node)
+        W = S(wfq)
+        offs: list[int] = []
+        for o in W.returns:
+            _stop_offsets(o.term, offs)
+        if not offs:
+            raise AnalysisError(f"{wfq}: the exclusive stop is not found in the written text")
         n64 += 1
-        ctx.ob("R6.4", f"{desc} writer prints stop - 1", offs == [-1], f"integer offsets inside f-strings: {offs}", f, f.node, "writer offset")
-    for pfq, var, desc in (("http.parse_range_header", "end", "Range"), ("http.parse_content_range_header", "stop", "Content-Range")):
-        f = repo.func(pfq)
-        ctx.saw(f)
+        ctx.ob("R6.4", f"{desc} writer prints stop - 1", all(x == -1 for x in offs), f"offsets applied to the exclusive stop where it is printed: {sorted(set(offs))}", W.fi, W.fi.node, "writer offset")
+    for pfq, cls_, pos, kw, desc in (("http.parse_range_header", "Range", 1, "ranges", "Range"), ("http.parse_content_range_header", "ContentRange", 2, "stop", "Content-Range")):
+        Pp = S(pfq)
         offs = []
-        for s_, v in astq.assigns_to(f.node, var, nested=True):
-            if v is None or astq.is_none(v):
-                continue
-            cands = [v] if not isinstance(v, ast.IfExp) else [v.body, v.orelse]
-            for cnd in cands:
-                if astq.is_none(cnd):
-                    continue
-                if isinstance(cnd, ast.BinOp) and isinstance(cnd.right, ast.Constant) and isinstance(cnd.right.value, int) and isinstance(cnd.left, ast.Call):
-                    offs.append(cnd.right.value if isinstance(cnd.op, ast.Add) else -cnd.right.value if isinstance(cnd.op, ast.Sub) else None)
-                elif isinstance(cnd, ast.Call):
-                    offs.append(0)
+        for o in Pp.returns:
+            for x in walk(o.term):
+                if _is_call_to(x, cls_):
+                    v = _arg(x, pos, kw)
+                    if v is None:
+                        raise AnalysisError(f"{pfq}: {cls_}(...) without a {kw} argument")
+                    if cls_ == "Range":
+                        its_ = coll_items(v)
+                        if its_ is None:
+                            raise AnalysisError(f"{pfq}: the ranges argument is not a collection built here: {show(v)}")
+                        for _, it_ in its_:
+                            if it_[0] != "tuple" or len(it_[1]) != 2:
+                                raise AnalysisError(f"{pfq}: range item is not a pair: {show(it_)}")
+                            _parsed_offsets(it_[1][1], offs, pfq)
+                    else:
+                        _parsed_offsets(v, offs, pfq)
+        if not offs:
+            raise AnalysisError(f"{pfq}: no parsed stop value reaches {cls_}(...)")
         n64 += 1
-        ctx.ob("R6.4", f"{desc} parser stores value + 1", offs == [1], f"offsets applied to `{var}`: {offs}", f, f.node, "parser offset")
+        ctx.ob("R6.4", f"{desc} parser stores value + 1", all(x == 1 for x in offs), f"offsets applied to the parsed number stored as exclusive stop: {sorted(set(offs))}", Pp.fi, Pp.fi.node, "parser offset")
     ctx.floor("R6.4", "offset sites", n64, 5)
     for cn in ("ContentRange", "Range"):
         optional_int_rule(ctx, "R6.4", repo.cls(f"datastructures.range.{cn}"))
 
     # ---------------- R6.5 separators -------------------------------------
-    dc = repo.func("http.dump_csp_header")
-    pc = repo.func("http.parse_csp_header")
-    ctx.saw(dc, pc)
-    joins = [astq.const_str(c.func.value) for c in astq.method_calls(dc.node, "join")]  # type: ignore[attr-defined]
-    inner = None
-    for n in ast.walk(dc.node):
-        if isinstance(n, ast.JoinedStr) and len(n.values) == 3:
-            inner = astq.const_str(n.values[1])
-    splits = [(astq.const_str(c.args[0]) if c.args else None, len(c.args)) for c in astq.method_calls(pc.node, "split")]
-    ok = joins == ["; "] and inner == " " and (";", 1) in splits and (" ", 2) in splits
-    ctx.ob("R6.5", "CSP separators agree", ok, f"writer joins {joins} with inner {inner!r}; parser splits {splits}", dc, dc.node, "csp separators")
+    DC = S("http.dump_csp_header")
+    PC = S("http.parse_csp_header")
+    sep, inner = _csp_template(DC)
+    pairs = [("k1", "v1 w1"), ("k2", "v2")]
+    header = sep.join(k + inner + v for k, v in pairs)
+    E = _element_term(PC, "the split policies", lambda x: any(y[0] == "p" for y in walk(x)))
+    tuples = _item_outcomes(PC, lambda i: i[0] == "tuple" and len(i[1]) == 2)
+    if not tuples:
+        raise AnalysisError("parse_csp_header: no (directive, value) pair is collected")
+    vp = next((p for p in PC.params if any(x == ("p", p) for x in walk(E))), None)
+    elements = conc.val(E[1], {("p", vp): header})
+    if not isinstance(elements, (list, tuple)):
+        raise AnalysisError("parse_csp_header: the policies are not a list")
+    got_ = [r for r in (_pick_value(conc, tuples, {E: el}, default=None) for el in elements) if r is not None]
+    ctx.ob("R6.5", "CSP separators agree", got_ == pairs, f"writer joins with {sep!r}, key{inner!r}value; the parser's element step on {header!r} -> {got_}", DC.fi, DC.fi.node, "csp separators")
 
-    et = repo.func("datastructures.etag.ETags.to_header")
+    ET = S("datastructures.etag.ETags.to_header")
     pe = repo.func("http.parse_etags")
-    ctx.saw(et, pe)
-    forms = sorted({"".join(v.value if isinstance(v, ast.Constant) else "x" for v in n.values) for n in ast.walk(et.node) if isinstance(n, ast.JoinedStr)})
-    ejoin = [astq.const_str(c.func.value) for c in astq.method_calls(et.node, "join")]  # type: ignore[attr-defined]
-    ctx.ob("R6.5", "ETags written as \"x\" and W/\"x\" joined by ', '", forms == ['"x"', 'W/"x"'] and ejoin == [", "], f"forms={forms} join={ejoin}", et, et.node, "etag forms")
-    erx = None
-    for c in astq.method_calls(pe.node, "match"):
-        d = dotted(c.func.value)  # type: ignore[attr-defined]
-        if d:
-            v = folder.name(http, d)
-            if isinstance(v, RegexConst):
-                erx = (d, v)
-    if erx is None:
-        raise AnalysisError("parse_etags: regex slot not found")
+    ctx.saw(pe)
+    esep, strong_f, weak_f = _etag_template(ET)
+    sample = esep.join([strong_f[0] + "a b" + strong_f[1], weak_f[0] + "c,d" + weak_f[1], strong_f[0] + "e" + strong_f[1]])
+    erx = _regex_slot(folder, pe, "parse_etags")
     cre = re.compile(erx[1].pattern, erx[1].flags)
-    sample = '"a b", W/"c,d", "e"'
     got = []
-    pos = 0
-    while pos < len(sample):
-        m = cre.match(sample, pos)
-        if m is None or m.end() == pos:
+    pos_ = 0
+    while pos_ < len(sample):
+        m = cre.match(sample, pos_)
+        if m is None or m.end() == pos_:
             break
-        got.append(m.groups())
-        pos = m.end()
-    exp = [(None, "a b", None), ("W/", "c,d", None), (None, "e", None)]
+        g = m.groups()
+        got.append((bool(g[0]) if g else None, *g[1:]))
+        pos_ = m.end()
+    exp = [(False, "a b", None), (True, "c,d", None), (False, "e", None)]
+    singles = []
+    for el, want in ((strong_f[0] + "a b" + strong_f[1], (False, "a b", None)), (weak_f[0] + "c,d" + weak_f[1], (True, "c,d", None))):
+        m = cre.match(el)
+        g = m.groups() if m is not None else ()
+        singles.append((el, (bool(g[0]), *g[1:]) if g and m is not None and m.end() == len(el) else None, want))
+    ctx.ob("R6.5", "ETags written as \"x\" and W/\"x\" joined by ', '", all(g_ == w_ for _, g_, w_ in singles), f"forms {strong_f[0]}x{strong_f[1]} / {weak_f[0]}x{weak_f[1]} joined by {esep!r}; each form read alone by {erx[0]}: {_first_bad(singles)}", ET.fi, ET.fi.node, "etag forms")
     ctx.ob("R6.5", "_etag_re reads both written forms and the ', ' separator", got == exp, f"{erx[0]} over the writer's constant forms {sample!r} -> {got}", pe, pe.node, "etag regex")
-    # unpack order and use: is_weak, quoted, raw
-    r_ok, r_fact = _etag_routing(pe)
+    PE = S("http.parse_etags")
+    r_ok, r_fact = _etag_routing(PE)
     ctx.ob("R6.5", "parse_etags routes weak/strong by the W/ group and keeps the quoted text when present", r_ok, r_fact, pe, pe.node, "etag routing")
-    qe = repo.func("http.quote_etag")
-    ue = repo.func("http.unquote_etag")
-    ctx.saw(qe, ue)
-    refuses = any(isinstance(n, ast.If) and norm(n.test) == "'\"' in etag" and astq.raises_of(n) for n in ast.walk(qe.node))
-    ctx.ob("R6.5", "quote_etag refuses a value containing a quote", refuses, "if '\"' in etag: raise", qe, qe.node, "etag quote refusal")
-    pre = [norm(c.args[0]) for c in astq.method_calls(ue.node, "startswith") if c.args]
-    ctx.ob("R6.5", "unquote_etag strips the W/ prefix quote_etag writes", any("'W/'" in p for p in pre) and any(norm(n) == "f'W/{etag}'" for n in ast.walk(qe.node) if isinstance(n, ast.JoinedStr)), f"prefixes {pre}", ue, ue.node, "etag prefix")
+    QE = S("http.quote_etag")
+    UE = S("http.unquote_etag")
+    r = _apply(conc, QE, ['a"b'], {})
+    ctx.ob("R6.5", "quote_etag refuses a value containing a quote", isinstance(r, tuple) and r[:1] == ("<raises>",), f"quote_etag('a\"b') -> {r!r}", QE.fi, QE.fi.node, "etag quote refusal")
+    wk = QE.params[1] if len(QE.params) > 1 else None
+    rows3 = []
+    for e_ in H.samples("aW/ ", 3):
+        for weak in (False, True) if wk else (False,):
+            w = _apply(conc, QE, [e_], {wk: weak} if wk else {})
+            rows3.append(((e_, weak), _apply(conc, UE, [w]) if isinstance(w, str) else w, (e_, weak)))
+    ctx.ob("R6.5", "unquote_etag strips the W/ prefix quote_etag writes", all(g == w_ for _, g, w_ in rows3), f"unquote_etag(quote_etag(e, weak)) == (e, weak) on {len(rows3)} cases; {_first_bad(rows3)}", UE.fi, UE.fi.node, "etag prefix")
 
-    hs = repo.func("datastructures.structures.HeaderSet.to_header")
-    ps = repo.func("http.parse_set_header")
-    ctx.saw(hs, ps)
-    hj = [astq.const_str(c.func.value) for c in astq.method_calls(hs.node, "join")]  # type: ignore[attr-defined]
-    ctx.ob("R6.5", "HeaderSet joined with ', ' of quoted items, parsed by the list parser", hj == [", "] and "werkzeug.http.quote_header_value" in _calls_resolved(ctx, hs) and "werkzeug.http.parse_list_header" in _calls_resolved(ctx, ps), f"join={hj}", hs, hs.node, "headerset")
-    for fq, sep, label in (("http.dump_header", ", ", "dump_header"), ("http.dump_options_header", "; ", "dump_options_header")):
-        dh = repo.func(fq)
-        ctx.saw(dh)
-        fam = _with_helpers(dh)
-        dj = sorted({astq.const_str(c.func.value) for c in astq.method_calls(dh.node, "join")} - {None})  # type: ignore[attr-defined]
-        fstrs = [n for g in fam for n in ast.walk(g.node) if isinstance(n, ast.JoinedStr)]
-        kv = sorted({"".join(v.value if isinstance(v, ast.Constant) else "x" for v in n.values) for n in fstrs})
-        ctx.ob("R6.5", f"{label} joins with {sep!r} and writes key=value", dj == [sep] and kv == ["x=x"], f"join={dj} forms={kv}", dh, dh.node, f"{label} separators")
-        quoted_values = bool(fstrs) and all(_fstring_value_quoted(n) for n in fstrs if not _under_star_branch(n)) and any(_fstring_value_quoted(n) and not _under_star_branch(n) and len(n.values) == 3 for n in fstrs)
-        ctx.ob("R6.5", f"{label} quotes every value except under a key ending in '*'", quoted_values, f"{len(fstrs)} key=value f-string(s) in {[g.name for g in fam]}", dh, dh.node, f"{label} quoting")
-    semis = [c for c in astq.method_calls(po.node, "partition") + astq.method_calls(po.node, "find") if c.args and astq.const_str(c.args[0]) == ";"]
-    ctx.ob("R6.5", "parse_options_header cuts at ';'", len(semis) >= 2, f"{len(semis)} uses of ';'", po, po.node, "options separators")
+    HS = S("datastructures.structures.HeaderSet.to_header")
+    PS = S("http.parse_set_header")
+    hj, hitems = _joined(HS, "HeaderSet.to_header")
+    quoted_items = bool(hitems) and all(_is_call_to(i, "quote_header_value") and i[2] and any(y[0] == "it" for y in walk(i[2][0])) for _, i in hitems)
+    reads = any(_is_call_to(x, "HeaderSet") and any(_is_call_to(y, "parse_list_header") for y in walk(x)) for o in PS.returns for x in walk(o.term))
+    ctx.ob("R6.5", "HeaderSet joined with ', ' of quoted items, parsed by the list parser", hj == {", "} and quoted_items and reads, f"join={sorted(hj)} items quoted={quoted_items} parse_set_header -> HeaderSet(parse_list_header(..))={reads}", HS.fi, HS.fi.node, "headerset")
+    for fq, sep_, label in (("http.dump_header", ", ", "dump_header"), ("http.dump_options_header", "; ", "dump_options_header")):
+        D = S(fq)
+        dj, ditems = _joined(D, label)
+        kv_ok, q_ok, facts = _kv_items(ditems, label)
+        ctx.ob("R6.5", f"{label} joins with {sep_!r} and writes key=value", dj == {sep_} and kv_ok, f"join={sorted(dj)}; {facts[0]}", D.fi, D.fi.node, f"{label} separators")
+        ctx.ob("R6.5", f"{label} quotes every value except under a key ending in '*'", q_ok, facts[1], D.fi, D.fi.node, f"{label} quoting")
+    cuts = [x for x in PO.terms_deep() if x[0] == "meth" and x[1] in CUT_METHODS and x[3] and x[3][0] == C(";")]
+    ctx.ob("R6.5", "parse_options_header cuts at ';'", len(cuts) >= 1, f"{len(cuts)} cut(s) at ';' ({sorted({x[1] for x in cuts})})", po, po.node, "options separators")
 
-    rt = repo.func("datastructures.range.Range.to_header")
-    pr = repo.func("http.parse_range_header")
-    ctx.saw(rt, pr)
-    rj = [astq.const_str(c.func.value) for c in astq.method_calls(rt.node, "join")]  # type: ignore[attr-defined]
-    rsplits = sorted({astq.const_str(c.args[0]) for c in astq.method_calls(pr.node, "split") + astq.method_calls(pr.node, "partition") if c.args} - {None})
-    ctx.ob("R6.5", "Range written units=a-b,c-d and split on = , -", rj == [","] and rsplits == [",", "-", "="], f"join={rj} splits={rsplits}", rt, rt.node, "range separators")
+    RT = S("datastructures.range.Range.to_header")
+    PR = S("http.parse_range_header")
+    w_ok, w_fact, wseps = _range_template(RT)
+    rcuts = {cv(x[3][0]) for x in PR.terms_deep() if x[0] == "meth" and x[1] in CUT_METHODS and x[3] and is_cstr(x[3][0])}
+    ctx.ob("R6.5", "Range written units=a-b,c-d and split on = , -", w_ok and wseps <= rcuts, f"{w_fact}; parser cuts on {sorted(rcuts)}", RT.fi, RT.fi.node, "range separators")
 
     # ---------------- R6.6 pairing ---------------------------------------
-    pairs = [
+    pairs6 = [
         ("datastructures.cache_control._CacheControl.to_header", "werkzeug.http.dump_header"),
         ("http.parse_cache_control_header", "werkzeug.http.parse_dict_header"),
         ("datastructures.csp.ContentSecurityPolicy.to_header", "werkzeug.http.dump_csp_header"),
@@ -352,139 +414,470 @@ def run(ctx: Ctx) -> None:
         ("http.dump_header", "werkzeug.http.quote_header_value"),
     ]
     n66 = 0
-    for src, dst in pairs:
-        f = repo.func(src)
-        ctx.saw(f)
-        got_ = _calls_resolved(ctx, f)
+    for src, dst in pairs6:
+        Sx = S(src)
+        got_fq = set()
+        for o in Sx.returns:
+            for x in walk_deep(o.term):
+                if x[0] == "call" and _gfq(x[1]):
+                    got_fq.add(x[1][1])
         n66 += 1
-        ctx.ob("R6.6", f"{src} reaches {dst}", dst in got_, f"resolved callees: {sorted(x for x in got_ if x.startswith(('werkzeug', 'email')))[:8]}", f, f.node, f"calls {dst}")
+        ctx.ob("R6.6", f"{src} reaches {dst}", dst in got_fq, f"calls whose result flows into the returned value: {sorted(x for x in got_fq if x.startswith(('werkzeug', 'email')))[:8]}", Sx.fi, Sx.fi.node, f"calls {dst}")
     ctx.floor("R6.6", "pairs", n66, 16)
-    # Authorization basic: b64encode of "user:pass" utf-8 / b64decode(...).decode() partition ':'
-    at = repo.func("datastructures.auth.Authorization.to_header")
-    af = repo.func("datastructures.auth.Authorization.from_header")
-    enc = "base64.b64encode" in _calls_resolved(ctx, at)
-    dec = "base64.b64decode" in _calls_resolved(ctx, af) and any(astq.const_str(c.args[0]) == ":" for c in astq.method_calls(af.node, "partition") if c.args)
-    colon = any(isinstance(n, ast.JoinedStr) and [astq.const_str(v) for v in n.values if isinstance(v, ast.Constant)] == [":"] for n in ast.walk(at.node))
-    ctx.ob("R6.6", "Basic credentials: b64(user ':' pass) written, decoded and cut at the first ':'", enc and dec and colon, f"b64encode={enc} b64decode+partition(':')={dec} colon-join={colon}", at, at.node, "basic pairing")
-    # scheme normal form: written .title(), read .lower()
-    lower = any(isinstance(s, ast.Assign) and norm(s) == "scheme = scheme.lower()" for s in ast.walk(af.node))
-    ctx.ob("R6.6", "auth scheme lower-cased on parse", lower, "scheme = scheme.lower()", af, af.node, "scheme lower")
-    da, pa = repo.func("http.dump_age"), repo.func("http.parse_age")
-    ctx.saw(da, pa)
-    ctx.ob("R6.6", "age is written and read as a base-10 integer", any(dotted(c.func) == "str" for c in astq.calls(da.node)) and any(dotted(c.func) == "int" for c in astq.calls(pa.node)), "", da, da.node, "age pairing")
+    AT = S("datastructures.auth.Authorization.to_header")
+    AF = S("datastructures.auth.Authorization.from_header")
+    enc = colon = False
+    for o in AT.returns:
+        for x in walk(o.term):
+            if x[0] == "call" and _gfq(x[1]) == "base64.b64encode":
+                enc = True
+                opaque = [y for y in walk(x) if y[0] == "v"]
+                if opaque:
+                    raise AnalysisError(f"Authorization.to_header: the encoded credentials are built in a way that is not followed: {show(opaque[0])[:100]}")
+                for y in walk(x):
+                    if y[0] == "cat" and len(y[1]) == 3 and y[1][1] == C(":") and not is_c(y[1][0]) and not is_c(y[1][2]):
+                        colon = True
+    dec_ = False
+    for o in AF.returns:
+        for x in walk_deep(o.term):
+            if x[0] == "meth" and x[1] in ("partition", "split") and x[3] and x[3][0] == C(":") and (x[1] == "partition" or (len(x[3]) > 1 and x[3][1] == C(1))):
+                if any(y[0] == "call" and _gfq(y[1]) == "base64.b64decode" for y in walk(x[2])):
+                    dec_ = True
+    ctx.ob("R6.6", "Basic credentials: b64(user ':' pass) written, decoded and cut at the first ':'", enc and dec_ and colon, f"b64encode={enc} b64decode+cut(':')={dec_} colon-join={colon}", AT.fi, AT.fi.node, "basic pairing")
+    # scheme normal form: written .title(), compared lower-case -> stored lower-case
+    for Fx, label in ((AF, "Authorization"), (S("datastructures.auth.WWWAuthenticate.from_header"), "WWWAuthenticate")):
+        built = [x for o in Fx.returns for x in [o.term] if x[0] == "call" and (x[1] == ("p", Fx.params[0]) or _is_call_to(x, label)) and x[2]]
+        if not built:
+            raise AnalysisError(f"{label}.from_header: no constructed instance is returned")
+        lows = [any(y[0] == "meth" and y[1] == "lower" for y in walk(x[2][0])) for x in built]
+        for x, low in zip(built, lows):
+            opaque = [y for y in walk(x[2][0]) if y[0] == "v" or (y[0] == "call" and (_gfq(y[1]) or "").startswith("werkzeug."))]
+            if not low and opaque:
+                raise AnalysisError(f"{label}.from_header: the scheme comes from a call that is not followed: {show(opaque[0])[:100]}")
+        ctx.ob("R6.6", "auth scheme lower-cased on parse" if label == "Authorization" else f"{label} scheme lower-cased on parse", all(lows), f"{sum(lows)}/{len(lows)} constructed instances get a lower-cased scheme, e.g. {show(built[0][2][0])}", Fx.fi, Fx.fi.node, "scheme lower")
+    DA, PA = S("http.dump_age"), S("http.parse_age")
+    wr = any(o.term != NONE and any(_is_call_to(y, "int") for y in walk(o.term)) for o in DA.returns)
+    rd = any(_is_call_to(x, "int") and x[2] and x[2][0][0] == "p" for o in PA.returns for x in walk(o.term))
+    ctx.ob("R6.6", "age is written and read as a base-10 integer", wr and rd, f"dump_age returns str(int(..))={wr}; parse_age builds on int(value)={rd}", DA.fi, DA.fi.node, "age pairing")
 
 
-def _fstring_offsets(fn: ast.AST) -> list[int]:
-    out = []
-    for n in ast.walk(fn):
-        if isinstance(n, ast.FormattedValue):
-            for b in ast.walk(n.value):
-                if isinstance(b, ast.BinOp) and isinstance(b.right, ast.Constant) and isinstance(b.right.value, int) and isinstance(b.op, (ast.Add, ast.Sub)):
-                    out.append(b.right.value if isinstance(b.op, ast.Add) else -b.right.value)
+# ---------------------------------------------------------------------------------------------------------------
+# R6.1 helpers
+
+
+def _alphabet_test(a: Term, subj: set[Term], conc: Conc) -> tuple[frozenset[str], bool, str | None] | None:
+    """atom `every character of the subject is in T` -> (T, truth value of the atom under which it holds, regex method)."""
+
+    def is_set_of_subj(x: Term) -> bool:
+        return x in subj or (x[0] == "call" and _gfq(x[1]) in ("builtins.set", "builtins.frozenset") and len(x[2]) == 1 and x[2][0] in subj)
+
+    def setval(x: Term) -> frozenset[str] | None:
+        try:
+            v = conc.val(x, {})
+        except AnalysisError:
+            return None
+        if isinstance(v, (set, frozenset)) and all(isinstance(c, str) and len(c) == 1 for c in v):
+            return frozenset(v)
+        if isinstance(v, str):
+            return frozenset(v)
+        return None
+
+    def rxval(x: Term) -> frozenset[str] | None:
+        try:
+            v = conc.val(x, {})
+        except AnalysisError:
+            return None
+        if isinstance(v, RegexConst):
+            cls_, _rep = single_class(v, 0x3000)
+            return frozenset(chr(c) for c in cls_)
+        return None
+
+    if a[0] == "meth" and a[1] == "issuperset" and len(a[3]) == 1 and is_set_of_subj(a[3][0]):
+        tv = setval(a[2])
+        return (tv, True, None) if tv is not None else None
+    if a[0] == "meth" and a[1] == "issubset" and len(a[3]) == 1 and is_set_of_subj(a[2]):
+        tv = setval(a[3][0])
+        return (tv, True, None) if tv is not None else None
+    if a[0] == "cmp" and a[1] == "<=" and is_set_of_subj(a[2]) and a[2] not in subj:
+        tv = setval(a[3])
+        return (tv, True, None) if tv is not None else None
+    if a[0] == "bin" and a[1] == "-" and is_set_of_subj(a[2]) and a[2] not in subj:
+        tv = setval(a[3])
+        return (tv, False, None) if tv is not None else None
+    if a[0] == "call" and _gfq(a[1]) == "builtins.all" and len(a[2]) == 1:
+        items = coll_items(a[2][0])
+        if items is not None and len(items) == 1:
+            (cs, it_), = items
+            if not cs and it_[0] == "cmp" and it_[1] == "in" and it_[2][0] == "it" and it_[2][1] in subj:
+                tv = setval(it_[3])
+                return (tv, True, None) if tv is not None else None
+    if a[0] == "meth" and a[1] in ("fullmatch", "match", "search") and a[3] and a[3][0] in subj:
+        tv = rxval(a[2])
+        return (tv, True, a[1]) if tv is not None else None
+    if a[0] == "cmp" and a[1] == "is" and a[3] == NONE and a[2][0] == "meth" and a[2][1] in ("fullmatch", "match", "search") and a[2][3] and a[2][3][0] in subj:
+        tv = rxval(a[2][2])
+        return (tv, False, a[2][1]) if tv is not None else None
+    return None
+
+
+def _family(fi: FuncInfo) -> list[FuncInfo]:
+    """fi plus the private module-level helpers it (transitively) calls: an extracted helper is read as part of fi."""
+    out = [fi]
+    i = 0
+    while i < len(out):
+        for c in astq.calls(out[i].node):
+            d = dotted(c.func)
+            if d and d.startswith("_") and d in fi.module.functions and fi.module.functions[d] not in out:
+                out.append(fi.module.functions[d])
+        i += 1
     return out
 
 
-def _etag_routing(pe: FuncInfo) -> tuple[bool, str]:
-    """interpret one iteration of the parse loop for the four cases (weak?, quoted?) and see which list receives which text."""
-    from ..cfg import cfg_of
-    from ..guards import canon, simulate
+def _regex_calls(folder: Folder, fi: FuncInfo) -> list[tuple[str, RegexConst, ast.Call, FuncInfo]]:
+    out = []
+    for g in _family(fi):
+        for c in astq.calls(g.node):
+            if not (isinstance(c.func, ast.Attribute) and c.func.attr in RX_METHODS):
+                continue
+            d = dotted(c.func.value)
+            if not d:
+                continue
+            try:
+                rx = folder.name(g.module, d)
+            except (Unfoldable, AnalysisError):
+                continue
+            if isinstance(rx, RegexConst):
+                out.append((d, rx, c, g))
+    return out
 
-    fn = pe.node
-    unpack = [s for s in ast.walk(fn) if isinstance(s, ast.Assign) and isinstance(s.targets[0], ast.Tuple) and isinstance(s.value, ast.Call) and isinstance(s.value.func, ast.Attribute) and s.value.func.attr == "groups"]
-    if len(unpack) != 1 or len(unpack[0].targets[0].elts) != 3 or not all(isinstance(e, ast.Name) for e in unpack[0].targets[0].elts):
-        return False, "no `<weak>, <quoted>, <raw> = match.groups()` unpacking"
-    W, Q, R = [e.id for e in unpack[0].targets[0].elts]
-    rets = [r for r in astq.returns_of(fn) if isinstance(r.value, ast.Call) and (dotted(r.value.func) or "").endswith("ETags") and len(r.value.args) == 2]
-    if len(rets) != 1:
-        return False, "no `return ETags(<strong>, <weak>)`"
-    strong, weak = norm(rets[0].value.args[0]), norm(rets[0].value.args[1])
-    cfg = cfg_of(pe)
-    start = cfg.node_of(unpack[0])
-    facts = []
-    ok = True
-    for wv in (False, True):
-        for qv in (False, True):
-            truth = {W: wv, Q: qv}
 
-            def val(k):
-                if k in truth:
-                    return truth[k]
-                if k.endswith(" is None"):
-                    return False
-                if "'*'" in k:
-                    return False
-                return None
+def _regex_slot(folder: Folder, fi: FuncInfo, label: str) -> tuple[str, RegexConst]:
+    found = {d: rx for d, rx, _, _ in _regex_calls(folder, fi)}
+    if len(found) != 1:
+        raise AnalysisError(f"{label}: expected one regex, found {sorted(found)}")
+    return next(iter(found.items()))
 
-            outs = simulate(cfg, val, start=start)
-            got = set()
-            for o in outs:
-                env = {W: "W", Q: "Q", R: "R", strong: strong, weak: weak}
 
-                def ev(e):
-                    if isinstance(e, ast.Name):
-                        return env.get(e.id, e.id)
-                    if isinstance(e, ast.IfExp):
-                        t_ = ev(e.test)
-                        tv = {"W": wv, "Q": qv}.get(t_)
-                        return ev(e.body if tv else e.orelse) if tv is not None else "?"
-                    if isinstance(e, ast.BoolOp) and isinstance(e.op, ast.Or):
-                        for v_ in e.values[:-1]:
-                            x = ev(v_)
-                            tv = {"W": wv, "Q": qv}.get(x, True if x == "R" else None)
-                            if tv:
-                                return x
-                        return ev(e.values[-1])
-                    return norm(e)
+def _option_regex_slots(ctx: Ctx, folder: Folder, po: FuncInfo):
+    tok_re = key_re = None
+    for d, rx, c, g in _regex_calls(folder, po):
+        try:
+            cls, rep = single_class(rx, 256)
+            if rep[0] >= 1 and rep[1] > 1000:
+                tok_re = (d, rx, cls, c, g)
+                continue
+        except Unfoldable:
+            pass
+        items = list(rx.parsed())
+        if len(items) == 2 and str(items[1][0]) == "LITERAL" and items[1][1] == ord("="):
+            kc = classes_in(rx, 256)
+            if len(kc) == 1:
+                key_re = (d, rx, kc[0], c, g)
+    if tok_re is None or key_re is None:
+        raise AnalysisError("parse_options_header: token-value / key regex slots not found")
+    ctx.saw(tok_re[4], key_re[4])
+    return tok_re, key_re
 
-                for n_ in o.passed[1:]:
-                    a = n_.ast
-                    if n_.kind != "stmt" or a is None:
-                        continue
-                    if isinstance(a, ast.Assign) and len(a.targets) == 1 and isinstance(a.targets[0], ast.Name):
-                        env[a.targets[0].id] = ev(a.value)
-                    if isinstance(a, ast.Expr) and isinstance(a.value, ast.Call) and isinstance(a.value.func, ast.Attribute) and a.value.func.attr == "append" and a.value.args:
-                        got.add((ev(a.value.func.value), ev(a.value.args[0])))
-                    if n_ is not start and isinstance(a, ast.Assign) and a is unpack[0]:
-                        break
-            want = {(weak if wv else strong, "Q" if qv else "R")}
-            facts.append(f"weak={wv}, quoted={qv}: {sorted(got)}")
-            if got != want:
-                ok = False
-    # the wildcard is the *unquoted* '*' only: the value compared with '*' must be the raw group itself
-    from ..dataflow import ReachingDefs
 
-    rd = ReachingDefs(cfg, pe.params)
-    stars = [t for t in cfg.tests() if t.kind == "test" and isinstance(t.ast, ast.Compare) and len(t.ast.ops) == 1 and any(astq.const_str(x) == "*" for x in (t.ast.left, t.ast.comparators[0]))]
-    star_ok = bool(stars)
-    for t in stars:
-        other = t.ast.left if astq.const_str(t.ast.comparators[0]) == "*" else t.ast.comparators[0]
-        if not isinstance(other, ast.Name):
-            star_ok = False
+def _first_char_is_quote(e: ast.AST) -> str | None:
+    """label of the edge of test atom e on which `the first character of <x> is '"'` holds."""
+    if isinstance(e, ast.Compare) and len(e.ops) == 1 and isinstance(e.ops[0], (ast.Eq, ast.NotEq)):
+        a, b = e.left, e.comparators[0]
+        for x, y in ((a, b), (b, a)):
+            if astq.const_str(y) == '"' and isinstance(x, ast.Subscript):
+                sl = x.slice
+                first = (isinstance(sl, ast.Slice) and (sl.lower is None or (isinstance(sl.lower, ast.Constant) and sl.lower.value == 0)) and isinstance(sl.upper, ast.Constant) and sl.upper.value == 1 and sl.step is None) or (isinstance(sl, ast.Constant) and sl.value == 0)
+                if first:
+                    return "T" if isinstance(e.ops[0], ast.Eq) else "F"
+        for x, y in ((a, b), (b, a)):
+            # x.find('"') == 0
+            if isinstance(y, ast.Constant) and y.value == 0 and isinstance(x, ast.Call) and isinstance(x.func, ast.Attribute) and x.func.attr == "find" and len(x.args) == 1 and astq.const_str(x.args[0]) == '"':
+                return "T" if isinstance(e.ops[0], ast.Eq) else "F"
+    if isinstance(e, ast.Call) and isinstance(e.func, ast.Attribute) and e.func.attr == "startswith" and len(e.args) == 1 and astq.const_str(e.args[0]) == '"':
+        return "T"
+    return None
+
+
+def _quoted_alternative(po: FuncInfo, tok_re) -> tuple[bool, str]:
+    """after the token-value regex failed to match, the parser looks for an opening quote."""
+    fam = _family(po)
+    found = []
+    for g in fam:
+        cfg = cfg_of(g)
+        for tn in cfg.tests():
+            if tn.kind == "test" and _first_char_is_quote(tn.ast) is not None:
+                found.append((g, cfg, tn))
+    if not found:
+        return False, "no test whether the rest starts with a double quote (x[:1] == '\"', x[0] == '\"', x.startswith('\"'), x.find('\"') == 0)"
+    call, g = tok_re[3], tok_re[4]
+    same = [(cfg, tn) for g2, cfg, tn in found if g2 is g]
+    if not same:
+        return True, f"opening-quote test `{norm(found[0][2].ast)}` (token regex tried in {g.name})"
+    cfg = same[0][0]
+    tnode = cfg.node_of(call)
+    if tnode is None:
+        raise AnalysisError("parse_options_header: token regex call has no CFG node")
+    # nodes from which the match result is tested: the call's own test atom, or tests of the local it is bound to
+    starts = []
+    if tnode.kind == "test":
+        lab = _unmatched_label(tnode.ast)
+        starts = cfg.succ(tnode, lab)
+    else:
+        st_ = tnode.ast
+        names = [tg.id for tg in getattr(st_, "targets", []) if isinstance(tg, ast.Name)]
+        for tn in cfg.tests():
+            if tn.kind == "test" and names and any(isinstance(x, ast.Name) and x.id in names for x in ast.walk(tn.ast)) and tn.id in cfg.reach(tnode):
+                starts += cfg.succ(tn, _unmatched_label(tn.ast))
+    if not starts:
+        raise AnalysisError("parse_options_header: cannot see where the result of the token regex is tested")
+    r = cfg.reach(starts)
+    ok = any(tn.id in r for _, tn in same)
+    return ok, f"opening-quote test `{norm(same[0][1].ast)}` {'is' if ok else 'is NOT'} reached when {tok_re[0]} does not match"
+
+
+def _unmatched_label(e: ast.AST) -> str:
+    from ..guards import canon
+
+    k, p = canon(e)
+    if k.endswith(" is None"):
+        return "T" if p else "F"  # atom true iff (x is None) == p
+    return "F" if p else "T"
+
+
+# ---------------------------------------------------------------------------------------------------------------
+# bounded evaluation helpers
+
+
+_MISSING = object()
+
+
+def _pick_value(conc: Conc, items: list[H.Outcome], env: dict[Term, t.Any], default: t.Any = _MISSING) -> t.Any:
+    """what the loop body stores for the sample element: the items whose condition holds must agree."""
+    vals = H.matching_items(conc, items, env)
+    vals = [v[1:] if isinstance(v, tuple) and v[:1] == ("kv",) else v for v in vals]
+    if not vals:
+        return "<no item is stored>" if default is _MISSING else default
+    if len(vals) > 1:
+        return ("<several items>", *vals)
+    return vals[0]
+
+
+# ---------------------------------------------------------------------------------------------------------------
+# R6.4 helpers
+
+
+def _is_stop(t_: Term) -> bool:
+    if t_[0] == "idx" and t_[2] == C(1):
+        return True
+    return t_[0] == "attr" and "stop" in t_[2].lower()
+
+
+def _stop_offsets(t_: t.Any, out: list[int], off: int = 0) -> None:
+    """offsets applied to the exclusive stop (second element of a range pair / the stop attribute) where it occurs in a value."""
+    if isinstance(t_, frozenset):
+        for x in t_:
+            _stop_offsets(x, out)
+        return
+    if not isinstance(t_, tuple) or not t_ or is_c(t_):
+        return
+    if isinstance(t_[0], str):
+        if _is_stop(t_):
+            out.append(off)
+            return
+        if t_[0] == "bin" and t_[1] == "+" and is_c(t_[3]) and isinstance(cv(t_[3]), int):
+            _stop_offsets(t_[2], out, off + cv(t_[3]))
+            return
+        items = coll_items(t_)
+        if items is not None:
+            for _, it_ in items:
+                _stop_offsets(it_, out)
+            return
+    for x in t_:
+        _stop_offsets(x, out)
+
+
+def _parsed_offsets(v: Term, out: list[int], where: str) -> None:
+    """offset applied to a parsed integer stored in a stop slot (None = open end)."""
+    if v == NONE:
+        return
+    if v[0] == "alt":
+        for x in v[1]:
+            _parsed_offsets(x, out, where)
+        return
+    off = 0
+    core = v
+    if v[0] == "bin" and v[1] == "+" and is_c(v[3]) and isinstance(cv(v[3]), int):
+        off, core = cv(v[3]), v[2]
+    if core[0] == "call" and (_gfq(core[1]) or "").rsplit(".", 1)[-1] in ("_plain_int", "int"):
+        out.append(off)
+        return
+    raise AnalysisError(f"{where}: stop value not understood: {show(v)}")
+
+
+# ---------------------------------------------------------------------------------------------------------------
+# R6.5 helpers
+
+
+def _joined(summ: Summary, label: str) -> tuple[set[str], list[tuple[tuple, Term]]]:
+    """separators and items of the join(s) that make up the returned text."""
+    seps: set[str] = set()
+    items: list[tuple[tuple, Term]] = []
+    for o in summ.returns:
+        js = [x for x in walk(o.term) if x[0] == "join"]
+        if not js:
+            if is_c(o.term):
+                continue
+            raise AnalysisError(f"{label}: returned text is not a join: {show(o.term)[:120]}")
+        for j in js:
+            if not is_cstr(j[1]):
+                raise AnalysisError(f"{label}: join separator is not a constant")
+            seps.add(cv(j[1]))
+            its_ = coll_items(j[2])
+            if its_ is None:
+                raise AnalysisError(f"{label}: joined collection is not built here: {show(j[2])[:120]}")
+            for cs, it_ in its_:
+                items.append((o.conds + cs, it_))
+    return seps, items
+
+
+def _ends_with_star(a: Term, key: Term) -> bool:
+    if a[0] == "cmp" and a[1] == "==":
+        for x, y in ((a[2], a[3]), (a[3], a[2])):
+            if y == C("*") and ((x[0] == "idx" and x[1] == key and x[2] == C(-1)) or (x[0] == "slice" and x[1] == key and x[2] == C(-1) and x[3] == NONE)):
+                return True
+    return a[0] == "meth" and a[1] == "endswith" and a[2] == key and len(a[3]) == 1 and a[3][0] == C("*")
+
+
+def _kv_items(items: list[tuple[tuple, Term]], label: str) -> tuple[bool, bool, tuple[str, str]]:
+    shapes = set()
+    n_quoted = 0
+    unq = []
+    for conds, it_ in items:
+        ps = _parts(it_)
+        if not any(is_cstr(p) for p in ps):
+            shapes.add("x")
             continue
-        defs = rd.reaching(t, other.id)
-        star_ok = star_ok and bool(defs) and all(d.stmt is unpack[0] and d.index == 2 for d in defs)
+        shape = "".join(cv(p) if is_cstr(p) else "x" for p in ps)
+        shapes.add(shape)
+        if shape != "x=x":
+            continue
+        key, val = ps[0], ps[2]
+        if _is_call_to(val, "quote_header_value") and val[2]:
+            n_quoted += 1
+            continue
+        if any(tr and _ends_with_star(a, key) for a, tr in conds):
+            continue
+        starish = [a for a, _ in conds if any(x == C("*") for x in walk(a))]
+        if starish and not any(_ends_with_star(a, key) for a in starish):
+            raise AnalysisError(f"{label}: a test on '*' guards an unquoted value but its shape is not understood: {show(starish[0])}")
+        unq.append(f"`{show(it_)}` under `{show_conds(conds)}`")
+    kv_ok = shapes <= {"x", "x=x"} and "x=x" in shapes
+    q_ok = n_quoted >= 1 and not unq
+    return kv_ok, q_ok, (f"item forms {sorted(shapes)}", f"{n_quoted} quoted key=value form(s); unquoted without a key ending in '*': {unq or 'none'}")
+
+
+def _csp_template(DC: Summary) -> tuple[str, str]:
+    seps, items = _joined(DC, "dump_csp_header")
+    inners = set()
+    for _, it_ in items:
+        ps = _parts(it_)
+        if len(ps) != 3 or not is_cstr(ps[1]) or is_c(ps[0]) or is_c(ps[2]):
+            raise AnalysisError(f"dump_csp_header: item is not <key><const><value>: {show(it_)}")
+        inners.add(cv(ps[1]))
+    if len(seps) != 1 or len(inners) != 1:
+        raise AnalysisError(f"dump_csp_header: separators {sorted(seps)} / {sorted(inners)}")
+    return next(iter(seps)), next(iter(inners))
+
+
+def _etag_template(ET: Summary) -> tuple[str, tuple[str, str], tuple[str, str]]:
+    seps, items = _joined(ET, "ETags.to_header")
+    forms: dict[str, tuple[str, str]] = {}
+    for _, it_ in items:
+        ps = _parts(it_)
+        vals = [p for p in ps if not is_c(p)]
+        if len(vals) != 1 or vals[0][0] != "it":
+            raise AnalysisError(f"ETags.to_header: item is not <const><tag><const>: {show(it_)}")
+        i = ps.index(vals[0])
+        pre = "".join(cv(p) for p in ps[:i])
+        post = "".join(cv(p) for p in ps[i + 1 :])
+        src = show(vals[0][1]).lower()
+        role = "weak" if "weak" in src else "strong" if "strong" in src else None
+        if role is None or role in forms:
+            raise AnalysisError(f"ETags.to_header: cannot tell which set `{show(vals[0][1])}` is")
+        forms[role] = (pre, post)
+    if len(seps) != 1 or set(forms) != {"weak", "strong"}:
+        raise AnalysisError(f"ETags.to_header: separators {sorted(seps)}, forms {sorted(forms)}")
+    return next(iter(seps)), forms["strong"], forms["weak"]
+
+
+def _group_index(t_: Term) -> int | None:
+    if t_[0] == "idx" and is_c(t_[2]) and isinstance(cv(t_[2]), int):
+        if t_[1][0] == "meth" and t_[1][1] == "groups":
+            return cv(t_[2]) + 1
+        if t_[1][0] == "meth" and t_[1][1] in ("match", "fullmatch", "search"):
+            return cv(t_[2])
+    if t_[0] == "meth" and t_[1] == "group" and len(t_[3]) == 1 and is_c(t_[3][0]) and isinstance(cv(t_[3][0]), int):
+        return cv(t_[3][0])
+    return None
+
+
+def _etag_routing(PE: Summary) -> tuple[bool, str]:
+    """which regex group ends up in which list, under which conditions; and what is compared with '*'."""
+    ok = True
+    facts = []
+    builds = [(o, x) for o in PE.returns for x in [o.term] if _is_call_to(x, "ETags")]
+    lists = [(o, x) for o, x in builds if _arg(x, 0, "strong_etags") is not None and _arg(x, 1, "weak_etags") is not None]
+    stars = [(o, x) for o, x in builds if _arg(x, 2, "star_tag") == H.TRUE]
+    if not lists or not stars:
+        raise AnalysisError("parse_etags: `ETags(<strong>, <weak>)` / `ETags(star_tag=True)` results not found")
+    seen = set()
+    for o, x in lists:
+        for role, coll in (("strong", _arg(x, 0, "strong_etags")), ("weak", _arg(x, 1, "weak_etags"))):
+            items = coll_items(coll)  # type: ignore[arg-type]
+            if items is None:
+                raise AnalysisError(f"parse_etags: the {role} list is not built here")
+            for cs, it_ in items:
+                gi = _group_index(it_)
+                if gi not in (2, 3):
+                    raise AnalysisError(f"parse_etags: item of the {role} list is not a regex group: {show(it_)}")
+                truth = {_group_index(a): tr for a, tr in cs if _group_index(a) is not None}
+                good = truth.get(1) == (role == "weak") and truth.get(2) == (gi == 2)
+                seen.add((role, gi))
+                if not good:
+                    ok = False
+                    facts.append(f"{role} list receives group {gi} under `{show_conds(cs)}`")
+    missing = {("strong", 2), ("strong", 3), ("weak", 2), ("weak", 3)} - seen
+    if missing:
+        ok = False
+        facts.append(f"never stored: {sorted(missing)}")
+    if ok:
+        facts.append("group 2 (quoted text) is kept when present, else group 3; group 1 (W/) selects the weak list")
+    star_ok = True
+    for o, _ in stars:
+        cmps = [a for a, tr in o.conds if tr and a[0] == "cmp" and a[1] == "==" and C("*") in (a[2], a[3])]
+        if not cmps:
+            raise AnalysisError("parse_etags: star result without a comparison with '*'")
+        for a in cmps:
+            other = a[3] if a[2] == C("*") else a[2]
+            if _group_index(other) != 3:
+                star_ok = False
+                facts.append(f"'*' is compared with {show(other)}")
     facts.append(f"'*' is compared with the raw (unquoted) group only: {star_ok}")
-    return ok and star_ok, "; ".join(facts) + f" (lists: strong=`{strong}`, weak=`{weak}`; Q = quoted group, R = raw group)"
+    return ok and star_ok, "; ".join(facts)
 
 
-def _under_star_branch(n: ast.AST) -> bool:
-    cur = astq.parent(n)
-    child = n
-    while cur is not None:
-        if isinstance(cur, ast.If) and "key[-1] == '*'" in norm(cur.test):
-            # in body (true branch)?
-            for s in cur.body:
-                if any(x is child for x in ast.walk(s)):
-                    return True
-        child = cur
-        cur = astq.parent(cur)
-    return False
-
-
-def _fstring_value_quoted(n: ast.JoinedStr) -> bool:
-    """f"{key}={quote_header_value(value)}": the part after '=' is a call to quote_header_value."""
-    vals = n.values
-    if len(vals) == 3 and astq.const_str(vals[1]) == "=" and isinstance(vals[2], ast.FormattedValue):
-        v = vals[2].value
-        return isinstance(v, ast.Call) and (dotted(v.func) or "").endswith("quote_header_value")
-    return True  # not a key=value f-string
+def _range_template(RT: Summary) -> tuple[bool, str, set[str]]:
+    seps, items = _joined(RT, "Range.to_header")
+    tops: set[str] = set()
+    for o in RT.returns:
+        tops |= set(_const_parts(o.term))
+    item_consts: set[str] = set()
+    two = False
+    for _, it_ in items:
+        cs = _const_parts(it_)
+        item_consts |= set(cs)
+        ps = _parts(it_)
+        if len(ps) == 3 and ps[1] == C("-") and not is_c(ps[0]) and not is_c(ps[2]):
+            two = True
+    ok = tops == {"="} and seps == {","} and item_consts <= {"-"} and two
+    return ok, f"template <units>{sorted(tops)}<items joined by {sorted(seps)}>, item constants {sorted(item_consts)}", tops | seps | item_consts
